@@ -167,6 +167,14 @@ def _check_split(ctx, case, curve, jordan, splits, tag, where):
         ctx.violation(tag, "piece-count", case, "%d segments, model expects %d (effective parameters %r)" % (len(got), len(expected), per), where)
         return False
     anyred = False
+    if ratlines:
+        # rational polygon split at rational parameters: every stored
+        # coordinate stays an int / Fraction (never silently a float)
+        for piece in got:
+            for p in piece:
+                if not (rg.is_exact(p[0]) and rg.is_exact(p[1])):
+                    ctx.violation(tag, "rational-split-became-float", case, "control point %r (%s)" % (p, type(p[0]).__name__), where)
+                    return False
     for piece, (i, a, b) in zip(got, expected):
         seg = curve[i]
         red = _reducible(seg, a, b)
